@@ -577,6 +577,11 @@ func (c *Chain) SignTxOpts(signer *Account, gas uint64, fee sdk.Coins, seqDelta 
 			anteOK = false
 		}
 	}
+	// A tx the node cannot even decode (e.g. an Any whose type is not registered for its interface) never reaches
+	// the ante handler.
+	if _, derr := txCfg.TxDecoder()(out); derr != nil {
+		anteOK = false
+	}
 	if anteOK {
 		signer.Seq++
 	}
